@@ -187,6 +187,17 @@ def run_history(case):
                 ndiv += 1
                 v, cur = check_state(poly, kind, ndiv, record, pre, case)
                 vs.extend(v)
+            elif ch == "a":
+                # read-only adjacency / antipode queries must leave every node attribute untouched
+                poly.get_polytope_adj_matrix()
+                poly.get_neighbours_of(0)
+                if kind == "cube4D":
+                    from molgri.space.polytopes import find_opposing_q
+                    for node in list(poly.G.nodes)[:3]:
+                        find_opposing_q(node, poly.G)
+                v, cur = check_state(poly, kind, ndiv, record, pre + "|after_queries", case)
+                vs.extend(v)
+                vs.extend(check_getters(poly, kind, cur, pre + "|after_queries", case))
             else:
                 vs.extend(check_getters(poly, kind, cur, pre, case))
         except Exception as e:
@@ -200,7 +211,10 @@ def run_history(case):
     return {"violations": vs, "canons": canons, "steps": steps}
 
 
-def words(L):
+ALPHA = "dga"
+
+
+def words(L, max_a=1):
     """all words over {d,g} with at most L d's, no 'gg', ending anywhere"""
     out = set()
     def rec(w, nd):
@@ -209,6 +223,8 @@ def words(L):
             rec(w + "d", nd + 1)
         if not w.endswith("g"):
             rec(w + "g", nd)
+        if not w.endswith("a") and w.count("a") < max_a:
+            rec(w + "a", nd)
     rec("", 0)
     return sorted(out, key=lambda w: (len(w), w))
 
@@ -218,10 +234,11 @@ def run(ctx):
     plan = {"ico": 5, "cube3D": 4, "cube4D": 2} if ctx.thorough else {"ico": 4, "cube3D": 4, "cube4D": 2}
     cs = []
     for kind, L in plan.items():
-        ws = words(L)
+        # deep subdivision words without queries, and words one level shallower (same depth for cube4D) with one query
+        ws = set(words(L, max_a=0)) | set(words(L if kind == "cube4D" else L - 1, max_a=1 if not ctx.thorough else 2))
         # a word that is a proper prefix of another word is covered by it (checks run after every step)
         maximal = [w for w in ws if not any(o != w and o.startswith(w) for o in ws)]
-        cs += [{"kind": kind, "word": w} for w in maximal]
+        cs += [{"kind": kind, "word": w} for w in sorted(maximal)]
     cs.sort(key=lambda c: -(c["word"].count("d") * (10 if c["kind"] == "cube4D" else 1)))
     res = ctx.pmap(run_history, cs, chunksize=1, recheck=2)
     states = set()
@@ -234,7 +251,7 @@ def run(ctx):
         "states": len(states) + len(plan), "transitions": trans, "traces_validated_against_impl": len(cs),
         "samples": collect_samples([f"{c['kind']}:{c['word']}" for c in cs], 6),
         "evaluations": trans, "distinct_nontrivial": len(states),
-        "rule": "every maximal word over {d=divide_edges, g=all node getters} with at most L divisions and no repeated g, "
+        "rule": "every maximal word over {d=divide_edges, g=all node getters, a=read-only adjacency/antipode queries (at most once; twice in the thorough tier)} with at most L divisions and no immediate repeats, "
                 "run on a fresh polytope; after every step: set equality with the ideal lattice (KD-tree, 1e-9), "
                 "multiplicity, projection, negation closure, index range / level order / permanence, half selection; "
                 "states = distinct (level, cache fill, node table) digests",
